@@ -861,8 +861,9 @@ def group_key(cfg):
         # the three classes with the signature (max_n, ram, costs) together:
         # a table keyed on the arguments but not on the algorithm
         return ("revolve3", cfg.N, cfg.params[:1])
-    if cfg.cls == "Multistage":      # all RAM/DISK splits of one total
-        return (cfg.cls, cfg.N, cfg.params[0] + cfg.params[1], cfg.params[2])
+    if cfg.cls == "Multistage":      # all RAM/DISK splits of one total, both
+        # trajectories (batch h: a memo keyed without the trajectory)
+        return (cfg.cls, cfg.N, cfg.params[0] + cfg.params[1])
     if cfg.cls == "Mixed":           # both storages
         return (cfg.cls, cfg.N, cfg.params[0])
     if cfg.cls == "TwoLevel":        # units / storage / trajectory variants
